@@ -93,9 +93,7 @@ def _run(ctx, pid, thorough, rng, exe, tmp):
                 nconn = sum(1 for b in e["conn"].values() if b["conn"])
                 ctx.distinct(("boot", len(tr), max([len(x["p"]) for x in tr] + [0]), nconn, nb))
             else: ctx.distinct(track.classify(e))
-    allk = check.load_known_all()
-    other = sorted(k for p, d in allk.items() if p != pid for k in d if k in track.TRACK_QUIRKS)
-    cfgtext = open(os.path.join(tlc.SPEC, "Trace_Track.cfg")).read().replace("TQ = {}", "TQ = {%s}" % ", ".join('"%s"' % x for x in other))
+    cfgtext, _, _ = check.quirk_cfg("Trace_Track.cfg", pid)
     rej = check.validate_scripts(ctx, "Trace_Track.tla", "_tb.cfg", items, timeout=1800, batch=12, extra_files={"_tb.cfg": cfgtext})
     for s, ev, k, r in rej:
         e = ev[k] if k < len(ev) else {}
